@@ -102,10 +102,15 @@ Definition block (ws : list (list T)) (i : nat) (x : list T) : list T :=
 Definition set_block (ws : list (list T)) (i : nat) (b out : list T) : list T :=
   firstn (offset ws i) out ++ b ++ skipn (offset ws i + length (nth i ws [])) out.
 (* out[index] = y for an index list: the parts of y are ASSIGNED to the listed components, in order *)
-Fixpoint put_blocks (ws : list (list T)) (idxs : list nat) (y out : list T) : list T :=
+Definition add_block (ws : list (list T)) (i : nat) (b out : list T) : list T :=
+  firstn (offset ws i) out ++ vadd (block ws i out) b ++ skipn (offset ws i + length (nth i ws [])) out.
+(* ComponentProjectionAdjoint._call on out = 0: for a LIST index  out[j] += y[k]  (acc = true, /repo abf8b3b),
+   for a slice  out[index] = y  (acc = false: assignment) *)
+Fixpoint put_blocks (acc : bool) (ws : list (list T)) (idxs : list nat) (y out : list T) : list T :=
   match idxs with
   | [] => out
-  | i :: r => let n := length (nth i ws []) in put_blocks ws r (skipn n y) (set_block ws i (firstn n y) out)
+  | i :: r => let n := length (nth i ws []) in
+      put_blocks acc ws r (skipn n y) ((if acc then add_block else set_block) ws i (firstn n y) out)
   end.
 
 (* ------------------------------------------------------------------ leaves *)
@@ -123,8 +128,9 @@ Inductive leaf :=
 | LUnflatten (wr : list T) (perm : list nat) (cv : T) (* FlatteningOperator.inverse *)
 | LProj (ws : list (list T)) (pw : list T) (i : nat)  (* ComponentProjection *)
 | LProjAdj (ws : list (list T)) (pw : list T) (i : nat)
-| LProjM (ws : list (list T)) (pw : list T) (idxs : list nat)     (* ComponentProjection with a slice / list index *)
-| LProjMAdj (ws : list (list T)) (pw : list T) (idxs : list nat)
+(* ComponentProjection with a list (acc = true) / slice (acc = false) index *)
+| LProjM (ws : list (list T)) (pw : list T) (idxs : list nat) (acc : bool)
+| LProjMAdj (ws : list (list T)) (pw : list T) (idxs : list nat) (acc : bool)
 | LPtInner (wb pw : list T) (g : list (list T)) (ow : list T)     (* PointwiseInner *)
 | LPtInnerAdj (wb pw : list T) (g : list (list T)) (ow : list T)  (* PointwiseInnerAdjoint *)
 (* ResizingOperator (pad_const = 0) and the operator it returns as adjoint: resize_array along axis 0, 1, ...
@@ -148,9 +154,9 @@ Definition leaf_dom (l : leaf) : list T :=
   | LZero wd _ | LMatrix wd _ _ | LMatrixAx wd _ _ _ _ | LSampling wd _ _ _ | LFlatten wd _ _ => wd
   | LWSum _ idx _ _ => ones (length idx)
   | LUnflatten _ perm _ => ones (length perm)
-  | LProj ws pw _ | LProjM ws pw _ => pweights pw ws
+  | LProj ws pw _ | LProjM ws pw _ _ => pweights pw ws
   | LProjAdj ws _ i => nth i ws []
-  | LProjMAdj ws _ idxs => concat (map (fun i => nth i ws []) idxs)
+  | LProjMAdj ws _ idxs _ => concat (map (fun i => nth i ws []) idxs)
   | LPtInner wb pw _ _ => pweights pw (map (fun _ => wb) pw)
   | LPtInnerAdj wb _ _ _ => wb
   | LPDeriv wd _ _ _ _ _ _ | LGrad wd _ _ _ _ _ | LDiv wd _ _ _ _ _ | LLap wd _ _ _ _ => wd
@@ -166,8 +172,8 @@ Definition leaf_ran (l : leaf) : list T :=
   | LSampling _ idx _ _ => ones (length idx)
   | LFlatten _ perm _ => ones (length perm)
   | LProj ws _ i => nth i ws []
-  | LProjM ws _ idxs => concat (map (fun i => nth i ws []) idxs)
-  | LProjAdj ws pw _ | LProjMAdj ws pw _ => pweights pw ws
+  | LProjM ws _ idxs _ => concat (map (fun i => nth i ws []) idxs)
+  | LProjAdj ws pw _ | LProjMAdj ws pw _ _ => pweights pw ws
   | LPtInner wb _ _ _ => wb
   | LPtInnerAdj wb pw _ _ => pweights pw (map (fun _ => wb) pw)
   | LPDeriv _ wr _ _ _ _ _ | LGrad _ wr _ _ _ _ | LDiv _ wr _ _ _ _ | LLap _ wr _ _ _ => wr
@@ -225,8 +231,8 @@ Definition eval_leaf (l : leaf) (x : list T) : list T :=
   | LUnflatten wr perm _ => scatter (length wr) perm x
   | LProj ws _ i => firstn (length (nth i ws [])) (skipn (offset ws i) x)
   | LProjAdj ws _ i => zeros (offset ws i) ++ x ++ zeros (total ws - offset ws i - length (nth i ws []))
-  | LProjM ws _ idxs => concat (map (fun i => block ws i x) idxs)
-  | LProjMAdj ws _ idxs => put_blocks ws idxs x (zeros (total ws))
+  | LProjM ws _ idxs _ => concat (map (fun i => block ws i x) idxs)
+  | LProjMAdj ws _ idxs acc => put_blocks acc ws idxs x (zeros (total ws))
   | LPtInner wb _ g ow => ptinner (length wb) g ow x
   | LPtInnerAdj _ pw g ow => ptinner_adj g pw ow x
   | LResize _ _ rm ishape oshape offs =>
@@ -335,8 +341,8 @@ Definition leaf_adjoint (l : leaf) : oexpr :=
   | LUnflatten wr perm cv => LScal cv (Leaf (LFlatten wr perm cv))
   | LProj ws pw i => Leaf (LProjAdj ws pw i)
   | LProjAdj ws pw i => Leaf (LProj ws pw i)
-  | LProjM ws pw idxs => Leaf (LProjMAdj ws pw idxs)
-  | LProjMAdj ws pw idxs => Leaf (LProjM ws pw idxs)
+  | LProjM ws pw idxs acc => Leaf (LProjMAdj ws pw idxs acc)
+  | LProjMAdj ws pw idxs acc => Leaf (LProjM ws pw idxs acc)
   | LPtInner wb pw g ow => Leaf (LPtInnerAdj wb pw g ow)
   | LPtInnerAdj wb pw g ow => Leaf (LPtInner wb pw g ow)
   | LResize wd wr rm ishape oshape offs => Leaf (LResizeAdj wr wd rm ishape oshape offs)
